@@ -115,6 +115,42 @@ def heap_digest(fitter):
     return res
 
 
+def helper_objects(fitter, depth=3):
+    """Instances of pybaselines classes reachable from the attributes of the shared fitter (whatever a fitter
+    stores on itself: poly helpers, spline bases, penalized / Whittaker systems, ...), with their paths."""
+    out, seen = {}, {id(fitter)}
+
+    def walk(obj, path, d):
+        for k, v in list(getattr(obj, '__dict__', {}).items()):
+            mod = getattr(type(v), '__module__', '') or ''
+            if mod.startswith('pybaselines') and id(v) not in seen and not isinstance(v, np.ndarray):
+                seen.add(id(v))
+                out[id(v)] = (f'{path}.{k}', v)
+                if d > 0:
+                    walk(v, f'{path}.{k}', d - 1)
+    walk(fitter, 'self', depth)
+    return out
+
+
+CELL_ATTRS = {a for c in REVIEWED_HELPER_ATTRS.values() for a, kind in c.items() if kind == 'cell'}
+
+
+def helper_bindings(fitter):
+    """{(helper path, attribute): id(value)} for every attribute of every helper object reachable from the fitter."""
+    res = {}
+    for _, (path, obj) in helper_objects(fitter).items():
+        for k, v in list(getattr(obj, '__dict__', {}).items()):
+            res[(path, id(obj), k)] = id(v)
+    return res
+
+
+def rebound(before, after):
+    """attributes of an ALREADY shared helper object that were re-bound (stores on shared helpers), except the
+    modelled cells of the cached poly / spline helpers."""
+    return sorted(f'{p}.{k}' for (p, i, k), v in after.items()
+                  if (p, i, k) in before and before[(p, i, k)] != v and k not in CELL_ATTRS)
+
+
 def mutated_in_place(before, after):
     """paths whose array object is the same but whose bytes differ."""
     return sorted(p for p, (i, h) in after.items() if p in before and before[p][0] == i and before[p][1] != h)
@@ -137,6 +173,8 @@ class LineRun:
         self.res_a = self.res_b = None
         self.mut = []           # (line index, file:line, paths)
         self.helper_lines = []  # line indices executed inside a method of a cached-helper class (self is a helper)
+        self.rebinds = []       # (line index, file:line, attribute paths re-bound on an already shared helper object)
+        self._lastb = None
         self.timed_out = False
         self._last = None
         self._pkg = pkg_dir()
@@ -154,8 +192,15 @@ class LineRun:
             self.count += 1
             if self.monitor is not None:
                 slf = frame.f_locals.get('self')
-                if slf is not None and type(slf).__name__ in REVIEWED_HELPER_ATTRS:
+                if slf is not None and slf is not self.monitor and (
+                        type(slf).__name__ in REVIEWED_HELPER_ATTRS or id(slf) in helper_objects(self.monitor)):
                     self.helper_lines.append(self.count)
+                curb = helper_bindings(self.monitor)
+                if self._lastb is not None:
+                    rb = rebound(self._lastb, curb)
+                    if rb:
+                        self.rebinds.append((self.count, f'{os.path.basename(frame.f_code.co_filename)}:{frame.f_lineno}', rb))
+                self._lastb = curb
                 cur = heap_digest(self.monitor)
                 if self._last is not None:
                     m = mutated_in_place(self._last, cur)
@@ -186,6 +231,7 @@ class LineRun:
         def body():
             if self.monitor is not None:
                 self._last = heap_digest(self.monitor)
+                self._lastb = helper_bindings(self.monitor)
             sys.settrace(self._global)
             try:
                 self.res_a = self._call(self.job_a)
